@@ -1,7 +1,7 @@
 (* C03 — coefficient-wise modular operations are exact for every operand and every modulus of the tables.
    Statements only.  The models (Functors.v, ScalarOps.v) carry the C++ machine-word wrap explicitly. *)
 From Coq Require Import ZArith List.
-From NTT Require Import Functors ScalarOps Simd.
+From NTT Require Import Functors ScalarOps ScalarClosed Simd.
 From NTT.gen Require Import Params.
 Local Open Scope Z_scope.
 
